@@ -173,7 +173,7 @@ func (r *run) exec() {
 	}
 	// coordinate scales, possibly very different per axis (x in millimetres of
 	// a degree, y in metres …); coordinates never are 0
-	scales := []float64{1, 1, 1, 1e-3, 1e3, 1e6, 0.1}
+	scales := []float64{1, 1, 1, 1e-3, 1e3, 1e6, 0.1, 1e-10, 1e-12}
 	r.sx, r.sy = scales[t.Choose(len(scales), "cfg-sx")], scales[t.Choose(len(scales), "cfg-sy")]
 	r.permute = t.Choose(3, "cfg-permute") != 0
 	speedMode := t.Choose(3, "cfg-speeds") // 0 all equal, 1 small set, 2 continuous
